@@ -36,6 +36,9 @@ type Config struct {
 	// AllowDeadlock: an execution in which no thread can run while the main thread has not returned is not
 	// reported (litmus tests that expect it); by default it is a violation.
 	AllowDeadlock bool
+	// PostPoints: see Options.PostPoints. Scenarios run through the registry get them unless NoPostPoints is set.
+	PostPoints   bool
+	NoPostPoints bool
 }
 
 // Violation is a failure with the choice list that reproduces it.
@@ -118,7 +121,7 @@ func Explore(cfg Config, body func()) *Report {
 		}
 	}
 
-	opts := Options{MaxSteps: cfg.MaxSteps, TimerBudget: cfg.TimerBudget, AllowDeadlock: cfg.AllowDeadlock}
+	opts := Options{MaxSteps: cfg.MaxSteps, TimerBudget: cfg.TimerBudget, AllowDeadlock: cfg.AllowDeadlock, PostPoints: cfg.PostPoints}
 	complete := true
 	stop := false
 	for ri, bound := range rounds {
@@ -143,12 +146,39 @@ func Explore(cfg Config, body func()) *Report {
 			}
 			Progress(nil)
 			e := RunOnce(it.picks, opts, body)
+			if DebugLabels && e.Diverge == "" {
+				e2 := RunOnce(picksOf(e.Choices), opts, body)
+				for i := range e.Choices {
+					if i >= len(e2.Choices) || e.Choices[i].N != e2.Choices[i].N || e.Choices[i].Label != e2.Choices[i].Label {
+						f, _ := os.Create(fmt.Sprintf("%s/mismatch-%d.txt", os.Getenv("VERIF_DEBUG_DIVERGE"), os.Getpid()))
+						fmt.Fprintf(f, "picks=%v\nchoice %d\nfirst : %+v\nsecond: ", picksOf(e.Choices), i, e.Choices[i])
+						if i < len(e2.Choices) {
+							fmt.Fprintf(f, "%+v\n", e2.Choices[i])
+						}
+						f.Close()
+						rep.Errors = append(rep.Errors, "same picks, different execution")
+						stop = true
+						break
+					}
+				}
+			}
 			if e.Unsupported != "" {
 				rep.Errors = append(rep.Errors, "the code under test uses a construct the controlled scheduler does not model: "+e.Unsupported)
 				stop = true
 				break
 			}
 			if e.Diverge != "" {
+				if os.Getenv("VERIF_DEBUG_DIVERGE") != "" {
+					o2 := opts
+					o2.Trace = true
+					e2 := RunOnce(it.picks[:len(it.picks)-1], o2, body)
+					f, _ := os.Create(fmt.Sprintf("%s/diverge-%d.txt", os.Getenv("VERIF_DEBUG_DIVERGE"), os.Getpid()))
+					fmt.Fprintf(f, "DIVERGE-TRACE picks=%v\n", it.picks)
+					for _, l := range RenderTrace(e2) {
+						fmt.Fprintln(f, "  "+l)
+					}
+					f.Close()
+				}
 				rep.Errors = append(rep.Errors, "replay of a prefix diverged: "+e.Diverge+" picks="+fmt.Sprint(it.picks))
 				stop = true
 				break
